@@ -1,6 +1,7 @@
 (* C02 — crash recovery applies every acknowledged insert exactly once. *)
 From Coq Require Import List Arith Bool Lia.
 From Zeno Require Import Crash CrashP Facts Tie.
+From Zeno Require Offsets OffsetsP.
 Import ListNotations.
 
 (* Kill the process at any instant of any history of acknowledged inserts, WAL reads, row-store applications and
@@ -59,6 +60,17 @@ Theorem C02_nonvacuous : exists ops, let s := catch_up true (crun true cinit ops
   4 <= length (ccontent s) /\ In Crash ops /\ In Flush ops.
 Proof. exact crash_nonvacuous. Qed.
 
+(* the offsets a recovering table resumes from (newest file header advanced by the offset file, memstore offsets advanced by the file's) are combined by
+   common.OffsetsBySource.Advance (Model/Offsets.v): source by source the later of the two offsets, so no offset ever moves
+   backwards, whichever operand is nil, and the order of combination does not matter to any reader *)
+Theorem C02_offsets_advance : forall s a b, OffsetsP.wf_obs b -> OffsetsP.nonneg a -> OffsetsP.nonneg b ->
+  Offsets.olook s (Offsets.advance a b) = Offsets.off_max (Offsets.olook s a) (Offsets.olook s b).
+Proof. exact OffsetsP.advance_read. Qed.
+Theorem C02_offsets_never_move_backwards : forall s a b, OffsetsP.wf_obs b -> OffsetsP.nonneg a -> OffsetsP.nonneg b ->
+  OffsetsP.off_le (Offsets.olook s a) (Offsets.olook s (Offsets.advance a b))
+  /\ OffsetsP.off_le (Offsets.olook s b) (Offsets.olook s (Offsets.advance a b)).
+Proof. exact OffsetsP.advance_ge. Qed.
+
 Print Assumptions C02_crash_recovery_exactly_once.
 Print Assumptions C02_every_acked_insert_once.
 Print Assumptions C02_no_loss_no_double_at_any_time.
@@ -70,3 +82,5 @@ Print Assumptions C02_flush_steps_as_modelled.
 Print Assumptions C02_offset_file_steps_as_modelled.
 Print Assumptions C02_point_submitted_atomically.
 Print Assumptions C02_nonvacuous.
+Print Assumptions C02_offsets_advance.
+Print Assumptions C02_offsets_never_move_backwards.
